@@ -435,6 +435,20 @@ def evaluate(prop, res):
             if mA:
                 cov["translated_body_ops_" + prof] = int(mA.group(1))
 
+    # ---- semantics corpus: the model's meaning of Rust's integer operators / arbitrary-int against rustc ----------------
+    sem = res.get("semantics")
+    if sem is not None and prop in TV_THEOREMS:
+        for prof, n in sem.get("evaluated", {}).items():
+            cov["semantics_ops_" + prof] = n
+        cov["semantics_exprs"] = sem.get("exprs", 0)
+        if sem.get("fail"):
+            add("correspondence", "semantics corpus could not be run", {"why": sem["fail"]})
+        for l in sem.get("mismatches", [])[:5]:
+            add("correspondence", "eval (the model's meaning of Rust's integer operators) disagrees with rustc on a random expression",
+                {"line": l})
+        if len(sem.get("bad", [])) > max(4, sem.get("exprs", 0) // 50):
+            add("correspondence", "too many expressions of the semantics corpus could not be read by the driver", {"lines": sem["bad"][:3]})
+
     # ---- structural comparison of Debug impl / builder / enum conversions with the model --------------------------------
     sc = res.get("struct_cmp", {})
     want_what = {"C19": "debug", "C13": "builder", "C14": "builder", "C07": "enum", "C06": "consts"}.get(prop)
